@@ -1,4 +1,6 @@
 import AmrK.Grid
+import AmrK.NamesMore
+import AmrK.CoordsProofs
 /-! # C08 — mandoline 2D flattening equals the finest-level covering grid exactly -/
 namespace C08
 open Grid
@@ -39,5 +41,37 @@ example :
          some 30, some 40, some 2, some 2, some 3, some 3, some 4, some 4,
          some 5, some 5, some 6, some 6, some 7, some 7, some 8, some 8,
          some 5, some 5, some 6, some 6, some 7, some 7, some 8, some 8] := by decide +kernel
+
+/-- **for every requested field**: an explicit list of existing field names (and `grid_level`) is
+    returned under exactly those names in request order, each read from the component holding that
+    name, and the grid-level map is produced iff asked for; a name that is neither is refused -/
+theorem requested_fields (names r : List String) (hall : "all" ∉ r)
+    (hex : ∀ x ∈ r, x = "grid_level" ∨ x ∈ names) :
+    ∃ idx, Names.mandolineIdx names (some r) = some idx ∧ idx.length = r.length ∧
+      Names.mandolineNames names idx = r.filter (· != "grid_level") ∧
+      Names.mandolineGrid idx = r.contains "grid_level" :=
+  Names.mandoline_list names r hall hex
+
+/-- `all` anywhere in the request: every field of the file, in file order, plus the grid-level map -/
+theorem all_fields (names r : List String) (h : "all" ∈ r) :
+    ∃ idx, Names.mandolineIdx names (some r) = some idx ∧ Names.mandolineNames names idx = names ∧
+      Names.mandolineGrid idx = true :=
+  Names.mandoline_all names r h
+
+theorem unknown_field_refused (names r : List String) (hall : "all" ∉ r) (x : String) (hx : x ∈ r)
+    (hg : x ≠ "grid_level") (hn : x ∉ names) : Names.mandolineIdx names (some r) = none :=
+  Names.mandoline_unknown names r hall x hx hg hn
+
+/-- non-vacuity: a plain field before and after the pseudo field, on a file that also holds `Y(OH)` -/
+example : Names.mandolineIdx ["Y_OH", "temp", "Y(OH)"] (some ["Y_OH", "grid_level", "Y(OH)"]) = some [some 0, none, some 2] ∧
+    Names.mandolineNames ["Y_OH", "temp", "Y(OH)"] [some 0, none, some 2] = ["Y_OH", "Y(OH)"] := by decide +kernel
+
+/-- **the cell-centre coordinates of that grid**: `np.linspace(lo + dx/2, hi - dx/2, n)` over a domain
+    of `n` cells of size `dx` is, entry by entry, the centre of each cell (exact arithmetic) -/
+theorem coordinates_are_cell_centres (lo hi dx : Rat) (n : Nat) (h : hi = lo + (n : Rat) * dx) :
+    Coords.axis lo hi dx n = Coords.centres lo dx n ∧ (Coords.axis lo hi dx n).length = n :=
+  ⟨Coords.axis_eq_centres lo hi dx n h, Coords.axis_length lo hi dx n⟩
+
+example : Coords.axis (-1) 2 (1/2) 6 = [-3/4, -1/4, 1/4, 3/4, 5/4, 7/4] := by decide +kernel
 
 end C08
